@@ -97,8 +97,23 @@ fn load_scenario(text: &str) -> (Context, Vec<String>) {
     (ctx, errors)
 }
 
+/// every `name expr` unit definition of a scenario (tdef blocks and definitions texts)
+fn scenario_unit_defs(text: &str) -> Vec<(String, rink_core::ast::Expr)> {
+    let mut out = vec![];
+    let mut take = |d: &DefEntry| if let Def::Unit { expr } = &*d.def { out.push((d.name.clone(), expr.0.clone())); };
+    for line in text.lines() {
+        if line.starts_with("tdef ") { if let Some(d) = parse_tdef(line) { take(&d); } }
+        else if let Some(p) = line.strip_prefix("text ").or_else(|| line.strip_prefix("multitext ")) {
+            for f in p.trim().split(' ') {
+                if let Ok(t) = std::fs::read_to_string(crate::evalsess::unhex(f)) { for d in rink_core::loader::gnu_units::parse_str(&t).defs.iter() { take(d); } }
+            }
+        }
+    }
+    out
+}
+
 /// The predicates of C08 computed on the real registry (independent of the model).
-fn oracle(ctx: &Context, w: &mut impl Write) {
+fn oracle(ctx: &Context, unit_defs: &[(String, rink_core::ast::Expr)], w: &mut impl Write) {
     use rink_core::ast::Expr;
     use rink_core::runtime::Value;
     let r = &ctx.registry;
@@ -139,6 +154,29 @@ fn oracle(ctx: &Context, w: &mut impl Write) {
     for (n, _) in &r.docs { if !exists(n) { orphans.push(format!("doc:{}", n)); } }
     for (n, c) in &r.categories { if !exists(n) { orphans.push(format!("category:{}", n)); } else if !r.category_names.contains_key(c) { orphans.push(format!("undeclared-category:{}", c)); } }
     line("orphans", orphans);
+    // unit definitions whose value is a substance (`air`, `Hg`, ...): the stored substance is what the
+    // definition text denotes in the finished database
+    let same = |a: &rink_core::runtime::Substance, b: &rink_core::runtime::Substance| {
+        a.amount == b.amount && a.properties.name == b.properties.name && a.properties.properties.len() == b.properties.properties.len()
+            && a.properties.properties.iter().zip(b.properties.properties.iter()).all(|((k1, p1), (k2, p2))|
+                k1 == k2 && p1.input == p2.input && p1.output == p2.output && p1.input_name == p2.input_name && p1.output_name == p2.output_name)
+    };
+    let mut sbad = vec![];
+    let mut schecked = 0usize;
+    for (n, e) in unit_defs {
+        if r.units.contains_key(n) { continue; }
+        if let Some(stored) = r.substances.get(n) {
+            schecked += 1;
+            match ctx.eval(e) {
+                Ok(Value::Substance(sub)) => {
+                    let sub = if sub.properties.name.contains('+') { sub.rename(n.clone()) } else { sub };
+                    if !same(&sub, stored) { sbad.push(n.clone()); }
+                }
+                _ => sbad.push(n.clone()),
+            }
+        }
+    }
+    line("fixedPointSubstBad", sbad);
     // after loading, a name denotes what the database holds for it: nothing of a substance block is left behind
     let mut stale = vec![];
     for (n, v) in r.units.iter() {
@@ -147,6 +185,7 @@ fn oracle(ctx: &Context, w: &mut impl Write) {
     }
     line("staleNames", stale);
     writeln!(w, "oracle fixedPointChecked {}", checked).unwrap();
+    writeln!(w, "oracle fixedPointSubstChecked {}", schecked).unwrap();
 }
 
 /// child: load one scenario, print the dump (or `panic`)
@@ -189,7 +228,10 @@ pub fn loadone(o: &Opts) -> i32 {
     match res {
         Ok((ctx, errors, usable, same, probes)) => {
             dump_registry(&ctx, &errors, &mut w);
-            oracle(&ctx, &mut w);
+            // the unit definitions of the scenario, re-read for the substance part of the fixed point (only
+            // when loading reported nothing; the parser's diagnostics of this second reading do not count)
+            let unit_defs = if errors.is_empty() { println!("@@oracle-reparse"); scenario_unit_defs(&text) } else { vec![] };
+            oracle(&ctx, &unit_defs, &mut w);
             writeln!(w, "usable {} probes {}", usable, probes).unwrap();
             writeln!(w, "deterministic {}", same).unwrap();
         }
